@@ -152,7 +152,7 @@ shape!(c03_and_under_not, 5, stack, |k, c| RangeQuery::Not(Box::new(RangeQuery::
 shape!(c03_not_between, 5, stack, |k, c| RangeQuery::Not(Box::new(RangeQuery::Between(c[0], c[1]))), !(c[0] <= k && k <= c[1]), 2);
 
 // nested Not (out of reach in the probes; kept in the thorough tier so a future engine that decides it is noticed)
-// @check id=C03 tier=thorough cap=600 role=nested_not
+// @check id=C03 tier=thorough cap=600 role=nested_not harness=c03_not_not
 // @fns BTreeIndex::range_key_matches_query
 // @bound Not(Not(Between(a,b))) == Between(a,b)
 shape!(c03_not_not, 5, stack, |k, c| RangeQuery::Not(Box::new(RangeQuery::Not(Box::new(RangeQuery::Between(c[0], c[1]))))), c[0] <= k && k <= c[1], 3);
